@@ -9,6 +9,7 @@
 -/
 import NetflowModel.Lemmas.A4Common
 import NetflowModel.Generated
+import NetflowModel.Lemmas.G1Arms
 namespace Netflow.Props
 open Netflow Preds
 
@@ -566,5 +567,22 @@ example : ∃ st' pkts, parseBytes c13Cfg {} (c13V5one 6 ++ c13V5one 17) = (st',
     by making `parseBytes` a function of `(config, parser state, buffer)`: the common view is a function of the decoded packet alone. -/
 theorem C13_no_global_state : Generated.noGlobals = true := by decide
 
+
+/-- **C13.G** (regenerated on every run) the conversions the common view applies to decoded values — `impl_try_from!` pairs,
+    `TryFrom<&FieldValue> for String` / `for IpAddr`, and the `Option<T>` types of `NetflowCommonFlowSet` that select them — are,
+    as read from the source now, the ones `commonOfRec` models (`asU8`, `asU16`, `asU32`, `asString`, `asIp`). -/
+theorem C13_conversions_generated (v : FieldValue) :
+    (asU8 v).map Int.ofNat = convNumBy Generated.convNumArms "u8" v ∧
+    (asU16 v).map Int.ofNat = convNumBy Generated.convNumArms "u16" v ∧
+    (asU32 v).map Int.ofNat = convNumBy Generated.convNumArms "u32" v ∧
+    asString v = convStringBy Generated.convStringTags v ∧
+    asIp v = convIpBy Generated.convIpTags v :=
+  ⟨G1.asU8_eq_generated v, G1.asU16_eq_generated v, G1.asU32_eq_generated v, G1.asString_eq_generated v, G1.asIp_eq_generated v⟩
+
+theorem C13_flow_types_generated :
+    Generated.commonFlowTypes =
+      [("src_addr", "IpAddr"), ("dst_addr", "IpAddr"), ("src_port", "u16"), ("dst_port", "u16"), ("protocol_number", "u8"),
+       ("protocol_type", "ProtocolTypes"), ("first_seen", "u32"), ("last_seen", "u32"), ("src_mac", "String"), ("dst_mac", "String")] :=
+  G1.commonFlowTypes_as_modelled
 
 end Netflow.Props
